@@ -150,9 +150,9 @@ def oracle(case, res):
                 # the slot may only ever hold a thread whose context is saved: the publication must be made
                 # by the context-switch callback of the waiter (which runs after the save), naming itself
                 if e.ctx != "c" or ("t%s" % T) != e.words[2]:
-                    return ("%s is published in %s by %s%s, i.e. while it is still running (not from its switch callback, "
-                            "its context is not saved yet): a signal could resume a half-saved context (%s)"
-                            % (e.words[2], u, "t" if e.ctx == "m" else "c", T, e.raw)), stats
+                    return ("%s is published in %s from %s, i.e. while it is still running (not from its own switch callback: "
+                            "its context is not saved yet), so a signal could resume a half-saved context (%s)"
+                            % (e.words[2], u, "main context" if e.ctx == "m" else "the callback of t%s" % T, e.raw)), stats
                 for (u2, W2), o in wait_open.items():
                     if u2 == u and ("t%d" % W2) == e.words[2]:
                         o["published"] = True
